@@ -80,6 +80,22 @@ class RecIter(ListIter):
         return v
 
 
+def premises(tier, seed, mir, repo, native, procs):
+    """The encoding below replaces `pipe` by its specification (order-preserving total map).  That premise is part of this
+    property ("identical for every worker count ... and thread schedule"), so it is discharged here as well: the MIRBMC
+    safety / deadlock / termination queries of C05 for 2 workers and n <= 2 items, the consumer's receive read from the
+    MIR of Pipe::next, and the unthreaded branch interpreted by MIRSE."""
+    import harnesses
+    c05 = harnesses.get('c05')
+    res = c05.custom_main('premise', seed, mir, repo, lambda: native, procs, prop=PROPERTY)
+    for v in res['violations']:
+        v['claim'] = 'premise of the stream claims (Pipe is an order-preserving total map under every schedule): ' + v['claim']
+    cov = res['coverage']
+    return {'violations': res['violations'], 'incon': ['premise (Pipe, MIRBMC): ' + x for x in res['incon']],
+            'coverage': {'engine': cov.get('engine'), 'queries': cov.get('queries'), 'solver_seconds': cov.get('solver_seconds'),
+                         'unthreaded_branch': cov.get('unthreaded_branch'), 'bounds': 'W = 2 workers, n <= 2 items, every interleaving; num_threads = 0 by MIRSE'}}
+
+
 def setup_machine(machine, shape, opts):
     def gen_from_jsonl(ctx, args, ck):
         name = ctx.m.peel(args[0])
